@@ -421,7 +421,7 @@ class ConfigParser(object):
           cp.remove_section(override.section)
       else:
         # values read from a file are stripped of surrounding white space: treat 'SECTION:key = value' alike
-        cp[override.section][override.key] = override.value.strip()
+        self._set_item(cp, override)
 
     # Add additional values
     for override in additional:
@@ -432,9 +432,18 @@ class ConfigParser(object):
 
       if not cp.has_section(override.section) and override.section != cp.default_section:
         cp.add_section(override.section)
-      cp[override.section][override.key] = override.value.strip()
+      self._set_item(cp, override)
 
     return cp
+
+  def _set_item(self, cp, override):
+    try:
+      cp[override.section][override.key] = override.value.strip()
+    except ValueError as e:
+      # e.g. a stray '$': the parser refuses values whose placeholder syntax it could not read from a file either
+      raise ConfigOverrideException(
+        "Entry [{section}]: '{key}' cannot take the value '{value}': {msg}".format(
+        section = override.section, key = override.key, value = override.value, msg = e))
 
   def _check_for_duplicates(self):
     self._check_for_duplicate_pairs()
